@@ -1412,6 +1412,95 @@ def model_teacher_probe():
     return out
 
 
+def ragged_mixed_containers_probe():
+    """fit / partial_fit of an UNinitialised offline node where inputs and targets come in DIFFERENT containers (one a 3-D array, the other a list of 2-D arrays)
+    and the list's sequences disagree on their feature count: refused with the node exactly as built, and a following well-formed fit behaves as on a fresh node"""
+    rpy()
+    from reservoirpy.nodes import Ridge
+    out = []
+    rs = np.random.RandomState(31)
+    key = "late-rejection:ragged-feature-count:mixed-containers"
+    T = 6
+    X3 = rs.randint(-8, 9, (2, T, 3)) / 4.0
+    cases = (("X 3-D array, Y ragged list", X3, [rs.randint(-8, 9, (T, 2)) / 4.0, rs.randint(-8, 9, (T, 3)) / 4.0], X3, [rs.randint(-8, 9, (T, 3)) / 4.0 for _ in range(2)]),
+             ("X ragged list, Y 3-D array", [rs.randint(-8, 9, (T, 2)) / 4.0, rs.randint(-8, 9, (T, 3)) / 4.0], rs.randint(-8, 9, (2, T, 2)) / 4.0,
+              [rs.randint(-8, 9, (T, 3)) / 4.0 for _ in range(2)], rs.randint(-8, 9, (2, T, 2)) / 4.0))
+    for label, Xb, Yb, Xg, Yg in cases:
+        for how in ("fit", "partial_fit"):
+            try:
+                node = Ridge(ridge=0.125, name=uname("rmc"))
+                try:
+                    getattr(node, how)(Xb, Yb); raised = False
+                except Exception:  # noqa: BLE001
+                    raised = True
+                if not raised:
+                    out.append(("accepted:ragged-feature-count:mixed-containers", "%s: %s accepts sequences of different feature counts" % (label, how)))
+                    continue
+                if node.is_initialized or node.input_dim is not None or node.output_dim is not None or len(node._buffers) > 0:
+                    out.append((key, "%s: %s is refused, but the node was initialised first (is_initialized %r, input_dim %r, output_dim %r)"
+                                % (label, how, node.is_initialized, node.input_dim, node.output_dim)))
+                    continue
+                node.fit(Xg, Yg)
+                ref = Ridge(ridge=0.125, name=uname("rmr")).fit(Xg, Yg)
+                if not np.allclose(node.Wout, ref.Wout, rtol=1e-9, atol=1e-9):
+                    out.append((key, "%s: after the refused %s, a well-formed fit differs from the same fit on a fresh node" % (label, how)))
+            except Exception as e:  # noqa: BLE001
+                out.append((key, "%s: after a refused %s, a well-formed fit raises %r" % (label, how, e)))
+    seen, uniq = set(), []
+    for k, w in out:
+        if k not in seen:
+            seen.add(k); uniq.append((k, w))
+    return uniq
+
+
+def refused_initializer_probe():
+    """a call refused BY THE INITIALIZER (user-supplied Win / Wout of another width than the data; an initializer that raises after setting a dimension) leaves the
+    node as built: no dimension inferred, not initialised, and a following well-formed call of the right width is accepted"""
+    rpy()
+    from reservoirpy.node import Node
+    from reservoirpy.nodes import Reservoir, Ridge
+    out = []
+    rs = np.random.RandomState(21)
+    key = "late-rejection:initializer-refusal-keeps-dimensions"
+
+    def custom():
+        def init(node, x=None, y=None):
+            node.set_input_dim(x.shape[1]); node.set_output_dim(x.shape[1])
+            if x.shape[1] != 3:
+                raise ValueError("this node wants 3 features")
+        return Node(forward=lambda n, x: 2.0 * x, initializer=init, name=uname("rip"))
+    cases = (("reservoir-user-Win", lambda: Reservoir(W=rs.randint(-4, 5, (5, 5)) / 8.0, Win=rs.randint(-4, 5, (5, 3)) / 4.0, input_bias=False, name=uname("rir")), 5),
+             ("reservoir-user-Win-bias", lambda: Reservoir(W=rs.randint(-4, 5, (5, 5)) / 8.0, Win=rs.randint(-4, 5, (5, 3)) / 4.0, bias=rs.randint(-4, 5, (5, 1)) / 4.0, name=uname("rib")), 5),
+             ("custom-initializer", custom, 3))
+    for label, mk, width_out in cases:
+        for how in ("run", "call"):
+            try:
+                node = mk()
+                before = (node.is_initialized, node.input_dim, node.output_dim)
+                bad = np.ones((4, 4)) if how == "run" else np.ones((1, 4))
+                try:
+                    (node.run if how == "run" else node.call)(bad); raised = False
+                except Exception:  # noqa: BLE001
+                    raised = True
+                after = (node.is_initialized, node.input_dim, node.output_dim)
+                if not raised:
+                    out.append(("accepted:wrong-feature-count:initializer", "%s: %s on 4-wide data is accepted although the initializer wants 3" % (label, how)))
+                    continue
+                if after != before:
+                    out.append((key, "%s: %s on 4-wide data is refused by the initializer, but (is_initialized, input_dim, output_dim) went from %r to %r" % (label, how, before, after)))
+                    continue
+                r = node.run(np.ones((4, 3)))
+                if np.shape(r) != (4, width_out) or node.input_dim != 3:
+                    out.append((key, "%s: after the refused %s, a well-formed 3-wide run gives shape %s, input_dim %r" % (label, how, np.shape(r), node.input_dim)))
+            except Exception as e:  # noqa: BLE001
+                out.append((key, "%s: after a %s refused by the initializer, a well-formed 3-wide run raises %r" % (label, how, e)))
+    seen, uniq = set(), []
+    for k, w in out:
+        if k not in seen:
+            seen.add(k); uniq.append((k, w))
+    return uniq
+
+
 def declared_dim_multiseq_probe():
     """never-run deep model r1 >> o1 >> r2 >> o2(output_dim=2) and never-run ESN(output_dim=2), a dataset of TWO sequences whose targets for the declared
     readout are 3 wide: refused, every node left exactly as built (not initialised, no dimension inferred), and a following well-formed dataset of other
@@ -1511,6 +1600,14 @@ def oracle(ctx, scale=1):
         if key not in seen:
             seen.add(key)
             out.append({"key": key, "what": what, "scenario": {"declared_dim_multiseq_probe": True}, "expected": "an exception, every node as built", "observed": what})
+    for key, what in refused_initializer_probe():
+        if key not in seen:
+            seen.add(key)
+            out.append({"key": key, "what": what, "scenario": {"refused_initializer_probe": True}, "expected": "an exception, the node as built", "observed": what})
+    for key, what in ragged_mixed_containers_probe():
+        if key not in seen:
+            seen.add(key)
+            out.append({"key": key, "what": what, "scenario": {"ragged_mixed_containers_probe": True}, "expected": "an exception, the node as built", "observed": what})
     for key, what in ragged_model_probe():
         if key not in seen:
             seen.add(key)
@@ -1557,6 +1654,12 @@ def replay(payload):
         return {"violates": bool(v), "detail": v}
     if sc.get("declared_dim_multiseq_probe"):
         v = [k for k, _ in declared_dim_multiseq_probe() if k == payload.get("key")]
+        return {"violates": bool(v), "detail": v}
+    if sc.get("ragged_mixed_containers_probe"):
+        v = [(k, w) for k, w in ragged_mixed_containers_probe() if k == payload.get("key")]
+        return {"violates": bool(v), "detail": v}
+    if sc.get("refused_initializer_probe"):
+        v = [(k, w) for k, w in refused_initializer_probe() if k == payload.get("key")]
         return {"violates": bool(v), "detail": v}
     if sc.get("ragged_model_probe"):
         v = ragged_model_probe()
